@@ -53,12 +53,16 @@ def describe(c):
 
 
 def build_findings(ctx):
-    out = {}
-    for f in sorted(glob.glob(os.path.join(vlib.COQ, "Findings", "F_C07_*.v"))):
+    from concurrent.futures import ThreadPoolExecutor
+
+    def one(f):
         rc, so, se, dt = vlib.sh(["coqc", "-Q", ".", "PS", "-w", "-notation-overridden", os.path.relpath(f, vlib.COQ)],
                                  cwd=vlib.COQ, timeout=900)
-        out[os.path.basename(f)] = "refutation checks" if rc == 0 else "no longer compiles (defect repaired or model changed)"
-    ctx.extra["findings_refuted_in_coq"] = out
+        return os.path.basename(f), ("refutation checks" if rc == 0 else "no longer compiles (defect repaired or model changed)")
+
+    files = sorted(glob.glob(os.path.join(vlib.COQ, "Findings", "F_C07_*.v")))
+    with ThreadPoolExecutor(max_workers=4) as ex:
+        ctx.extra["findings_refuted_in_coq"] = dict(ex.map(one, files))
 
 
 RULE = ("scenarios of one swap driven through the real SwapService: the shared directed flows, then ~120 C07 directed maker flows "
